@@ -174,10 +174,20 @@ func main() {
 		evidenceDir = filepath.Join(workBase, "evidence")
 		replayDir = filepath.Join(workBase, "replays")
 	}
-	work := filepath.Join(workBase, prop)
-	if mode == "--replay" {
-		work = filepath.Join(workBase, prop+".replay")
+	// one work directory per invocation (two commands for the same property may run at the same time, e.g. its quick
+	// and its thorough tier); directories left by earlier invocations that are no longer running are removed first
+	modeTag := strings.TrimLeft(mode, "-")
+	_ = os.RemoveAll(filepath.Join(workBase, prop))
+	_ = os.RemoveAll(filepath.Join(workBase, prop+".replay"))
+	if old, _ := filepath.Glob(filepath.Join(workBase, prop+"."+modeTag+".*")); old != nil {
+		for _, d := range old {
+			pid, err := strconv.Atoi(d[strings.LastIndex(d, ".")+1:])
+			if err != nil || syscall.Kill(pid, 0) != nil {
+				_ = os.RemoveAll(d)
+			}
+		}
 	}
+	work := filepath.Join(workBase, fmt.Sprintf("%s.%s.%d", prop, modeTag, os.Getpid()))
 	_ = os.RemoveAll(work)
 	if err := os.MkdirAll(work, 0o755); err != nil {
 		die2("cannot create %s: %v", work, err)
